@@ -205,6 +205,8 @@ func (p *pump) RunEvent(time.Time) {
 			ok = p.forward(c, false)
 		case "unsign":
 			ok = p.forward(oracle.StripTSIG(b), false)
+		case "shortmac":
+			ok = p.forward(oracle.ShortenMAC(b, op.Frac), false)
 		case "wrongkey":
 			if t, _, has := oracle.FindTSIG(b); has {
 				c := oracle.SignTSIG(oracle.StripTSIG(b), r.KeyName, r.Alg, r.WrongSecret, prior, timers, t.Time, t.Fudge)
